@@ -16,6 +16,12 @@ pub(crate) struct Dg {
     pub salt: u32,
     /// (offset, len) pieces; may overlap (retransmission with a different split)
     pub cuts: Vec<(usize, usize)>,
+    /// IPv4 destination of every fragment of this datagram (ours, or someone else's)
+    pub dst: [u8; 4],
+    /// UDP source port (udp variant); None = RX_SPORT_BASE + index
+    pub sport: Option<u16>,
+    /// UDP checksum field 0 = "no checksum" (legal over IPv4)
+    pub zero_cksum: bool,
 }
 
 #[derive(Clone, Debug)]
@@ -34,11 +40,26 @@ impl Dg {
         if raw {
             pattern(self.len, self.salt)
         } else {
-            udp_datagram(PEER_IP, OUR_IP, RX_SPORT_BASE + idx as u16, RX_UDP_PORT, &pattern(self.len - 8, self.salt))
+            let mut d = udp_datagram(PEER_IP, self.dst, self.sport(idx), RX_UDP_PORT, &pattern(self.len - 8, self.salt));
+            if self.zero_cksum {
+                d[6] = 0;
+                d[7] = 0;
+            }
+            d
         }
     }
+    fn sport(&self, idx: usize) -> u16 {
+        self.sport.unwrap_or(RX_SPORT_BASE + idx as u16)
+    }
+    fn for_us(&self) -> bool {
+        self.dst == OUR_IP
+    }
+    fn plain(id: u16, len: usize, salt: u32, cuts: Vec<(usize, usize)>) -> Dg {
+        Dg { id, len, salt, cuts, dst: OUR_IP, sport: None, zero_cksum: false }
+    }
     fn to_json(&self) -> Value {
-        json!({"id": self.id, "len": self.len, "salt": self.salt, "cuts": self.cuts.iter().map(|c| json!([c.0, c.1])).collect::<Vec<_>>()})
+        json!({"id": self.id, "len": self.len, "salt": self.salt, "cuts": self.cuts.iter().map(|c| json!([c.0, c.1])).collect::<Vec<_>>(),
+            "dst": self.dst, "sport": self.sport, "zero_cksum": self.zero_cksum})
     }
 }
 
@@ -69,7 +90,7 @@ pub(crate) fn run_case(fam: &Family, order: &[u8]) -> RxResult {
     for &it in order {
         let (d, c) = fam.items[it as usize];
         let dg = &fam.dgs[d as usize];
-        let f = fragment(dg.id, proto, PEER_IP, OUR_IP, &payloads[d as usize], &[dg.cuts[c as usize]]).pop().unwrap();
+        let f = fragment(dg.id, proto, PEER_IP, dg.dst, &payloads[d as usize], &[dg.cuts[c as usize]]).pop().unwrap();
         net.inject(f);
         net.poll();
     }
@@ -85,11 +106,16 @@ pub(crate) fn run_case(fam: &Family, order: &[u8]) -> RxResult {
             match wc::parse_ip(&pkt) {
                 Ok(ip) if ip.version == 4 => {
                     let pl = &pkt[ip.payload_off..];
-                    if ip.src != wc::Addr::V4(PEER_IP) || ip.dst != wc::Addr::V4(OUR_IP) || ip.proto != PROTO_RAW {
+                    if ip.src != wc::Addr::V4(PEER_IP) || ip.proto != PROTO_RAW {
                         res.bad.push(("wrong-header", format!("raw socket got src={} dst={} proto={}", ip.src, ip.dst, ip.proto)));
                         continue;
                     }
-                    classify(&payloads, pl, None, &mut res);
+                    // the header destination must be the one of the datagram whose bytes follow
+                    let dst = match ip.dst {
+                        wc::Addr::V4(a) => a,
+                        _ => [0; 4],
+                    };
+                    classify(fam, &payloads, pl, None, Some(dst), &mut res);
                 }
                 Ok(_) => res.bad.push(("wrong-header", "raw socket got a non-IPv4 packet".into())),
                 Err(e) => res.bad.push(("malformed", format!("raw socket got an inconsistent packet: {} ({} bytes)", e, pkt.len()))),
@@ -103,26 +129,50 @@ pub(crate) fn run_case(fam: &Family, order: &[u8]) -> RxResult {
                 res.bad.push(("wrong-endpoint", format!("udp socket got a datagram from {}", ep)));
                 continue;
             }
-            classify(&payloads, &pl, Some(ep.port), &mut res);
+            classify(fam, &payloads, &pl, Some(ep.port), None, &mut res);
         }
     }
     res
 }
 
-fn classify(payloads: &[Vec<u8>], got: &[u8], sport: Option<u16>, res: &mut RxResult) {
-    // candidates: for udp the source port names the datagram; compare the UDP payload
+/// `run_case` with every call into smoltcp isolated: a panic becomes a localised violation
+/// `C12/panic/rx/<site>` and the sweep continues with the next case.
+pub(crate) fn run_case_caught(fam: &Family, order: &[u8]) -> Result<RxResult, Viol> {
+    std::panic::catch_unwind(std::panic::AssertUnwindSafe(|| run_case(fam, order))).map_err(|e| {
+        Viol::new(
+            format!("C12/panic/rx/{}", stable_site(&panic_site())),
+            format!("{}: panic while delivering the fragments: {} at {}", fam.label, panic_msg(e), last_panic_loc()),
+        )
+    })
+}
+
+fn classify(fam: &Family, payloads: &[Vec<u8>], got: &[u8], sport: Option<u16>, hdr_dst: Option<[u8; 4]>, res: &mut RxResult) {
+    // what each datagram looks like at the socket: udp socket -> UDP payload (the source port
+    // selects the candidates); raw socket -> IP payload, and the re-serialized header must carry
+    // the destination of that same datagram
     let cands: Vec<(usize, &[u8])> = match sport {
-        Some(p) => payloads.iter().enumerate().filter(|(i, _)| RX_SPORT_BASE + *i as u16 == p).map(|(i, d)| (i, &d[8..])).collect(),
+        Some(p) => payloads.iter().enumerate().filter(|(i, _)| fam.dgs[*i].sport(*i) == p).map(|(i, d)| (i, &d[8..])).collect(),
         None => payloads.iter().enumerate().map(|(i, d)| (i, &d[..])).collect(),
     };
-    if let Some((i, _)) = cands.iter().find(|(_, d)| *d == got) {
+    let dst_ok = |i: usize| hdr_dst.map_or(true, |d| d == fam.dgs[i].dst);
+    if let Some((i, _)) = cands.iter().find(|(i, d)| *d == got && dst_ok(*i)) {
         res.exact[*i] += 1;
+        return;
+    }
+    if let Some((i, _)) = cands.iter().find(|(_, d)| *d == got) {
+        res.bad.push(("header-of-other-datagram", format!("bytes of datagram {} delivered under destination {:?} (its fragments were sent to {:?})", i, hdr_dst, fam.dgs[*i].dst)));
         return;
     }
     let Some((i, want)) = cands.first() else {
         res.bad.push(("wrong-endpoint", format!("datagram from unknown source port {:?}, {} bytes", sport, got.len())));
         return;
     };
+    // spliced: every byte comes from one of the candidates at the same position, but not all from one
+    if cands.len() > 1 && cands.iter().all(|(_, d)| d.len() == got.len()) && (0..got.len()).all(|k| cands.iter().any(|(_, d)| d[k] == got[k])) {
+        let from: Vec<usize> = (0..got.len()).map(|k| cands.iter().find(|(_, d)| d[k] == got[k]).unwrap().0).collect();
+        res.bad.push(("spliced-from-two-datagrams", format!("delivered {} bytes are a mix of datagrams (per byte source: {:?})", got.len(), from)));
+        return;
+    }
     let cause = if got.len() < want.len() {
         "truncated"
     } else if got.len() > want.len() {
@@ -143,6 +193,12 @@ fn classify(payloads: &[Vec<u8>], got: &[u8], sport: Option<u16>, res: &mut RxRe
 ///   fragment is recordable iff the number of disjoint present ranges after adding it is
 ///   <= the limit. Reading the statement's "gaps the assembler is configured to track" as this
 ///   number is the lenient one (ranges >= gaps between them).
+/// * fragments addressed to another destination take part in the slot accounting like any other
+///   datagram: process_ipv4 reassembles BEFORE it filters on the destination address, and the
+///   key contains the destination, so they legitimately occupy a slot of their own until they
+///   complete. With REASSEMBLY_BUFFER_COUNT=1 a foreign fragment that arrives first holds the only
+///   slot and "nothing" is acceptable for our datagram (lenient reading); with >= 2 slots our
+///   datagram is always demanded.
 /// Delivery is demanded iff no fragment of the datagram was ever lost, the order completes it and
 /// header+payload fit REASSEMBLY_BUFFER_SIZE.
 pub(crate) fn model(fam: &Family, order: &[u8]) -> (Vec<bool>, Vec<u32>) {
@@ -223,7 +279,23 @@ pub(crate) fn judge(fam: &Family, order: &[u8], res: &RxResult) -> (Vec<Viol>, V
     for (cause, text) in &res.bad {
         v.push(Viol::new(format!("C12/rx/exact/{}", cause), format!("{}: {}", fam.label, text)));
     }
+    let mut demanded = demanded;
     for d in 0..fam.dgs.len() {
+        if !fam.dgs[d].for_us() {
+            // a datagram addressed to someone else: delivery is never demanded. At a udp socket it
+            // must never show up. A raw socket is served by `raw_socket_filter` BEFORE the
+            // destination filter of process_ipv4 (src/iface/interface/ipv4.rs), i.e. smoltcp's raw
+            // sockets see every datagram that reaches the interface: delivered whole and under its
+            // own destination it is still "exactly the original datagram" (whether it should be
+            // filtered is C11's business) -- lenient reading, counted in the evidence.
+            demanded[d] = false;
+            if !fam.raw && res.exact[d] > 0 {
+                v.push(Viol::new(
+                    "C12/rx/exact/datagram-for-other-destination-delivered",
+                    format!("{}: datagram {} addressed to {:?} was delivered to the udp socket {} time(s)", fam.label, d, fam.dgs[d].dst, res.exact[d]),
+                ));
+            }
+        }
         if res.exact[d] > max_del[d] {
             v.push(Viol::new(
                 "C12/rx/once/delivered-more-often-than-complete-sets-arrived",
@@ -289,6 +361,8 @@ struct Tally {
     free_nothing: u64,
     delivered_twice_ok: u64,
     tx_frames: u64,
+    foreign_whole_to_raw: u64,
+    panics: u64,
 }
 
 fn run_family(rep: &mut Report, fam: &Family, tally_by_class: &mut BTreeMap<String, Tally>, samples: &mut Vec<Value>) {
@@ -317,13 +391,16 @@ fn run_family(rep: &mut Report, fam: &Family, tally_by_class: &mut BTreeMap<Stri
         demanded: Vec<bool>,
         tx: usize,
         machinery: Option<String>,
+        panicked: bool,
     }
     let results: Vec<R> = flat
         .par_chunks(n)
-        .map(|order| {
-            let res = run_case(fam, order);
-            let (viols, demanded) = judge(fam, order, &res);
-            R { viols, exact: res.exact, demanded, tx: res.tx_frames, machinery: res.machinery }
+        .map(|order| match run_case_caught(fam, order) {
+            Ok(res) => {
+                let (viols, demanded) = judge(fam, order, &res);
+                R { viols, exact: res.exact, demanded, tx: res.tx_frames, machinery: res.machinery, panicked: false }
+            }
+            Err(v) => R { viols: vec![v], exact: vec![0; fam.dgs.len()], demanded: vec![false; fam.dgs.len()], tx: 0, machinery: None, panicked: true },
         })
         .collect();
     let t = tally_by_class.entry(fam.class.to_string()).or_default();
@@ -331,6 +408,9 @@ fn run_family(rep: &mut Report, fam: &Family, tally_by_class: &mut BTreeMap<Stri
         let order = &flat[k * n..(k + 1) * n];
         t.arrangements += 1;
         t.frames += n as u64;
+        if r.panicked {
+            t.panics += 1;
+        }
         t.tx_frames += r.tx as u64;
         for d in 0..fam.dgs.len() {
             match (r.demanded[d], r.exact[d]) {
@@ -341,6 +421,9 @@ fn run_family(rep: &mut Report, fam: &Family, tally_by_class: &mut BTreeMap<Stri
             }
             if r.exact[d] > 1 {
                 t.delivered_twice_ok += 1;
+            }
+            if !fam.dgs[d].for_us() && fam.raw && r.exact[d] > 0 {
+                t.foreign_whole_to_raw += 1;
             }
         }
         if let Some(m) = &r.machinery {
@@ -375,7 +458,7 @@ pub(crate) fn families(tier: Tier) -> Vec<Family> {
         raw,
         eth,
         label: format!("{} {} {} {}B {}", class, if raw { "raw" } else { "udp" }, medium_name(eth), total, what),
-        dgs: vec![Dg { id: 0x3300, len: total, salt: 7, cuts }],
+        dgs: vec![Dg::plain(0x3300, total, 7, cuts)],
         items,
     };
     // --- plain permutations
@@ -464,9 +547,51 @@ pub(crate) fn families(tier: Tier) -> Vec<Family> {
                 raw,
                 eth: false,
                 label: format!("interleaved {} ip {}+{} fragments", if raw { "raw" } else { "udp" }, n, m),
-                dgs: vec![Dg { id: 0x3300, len: t1, salt: 7, cuts: c1.clone() }, Dg { id: 0x3301, len: t2, salt: 9, cuts: c2.clone() }],
+                dgs: vec![Dg::plain(0x3300, t1, 7, c1.clone()), Dg::plain(0x3301, t2, 9, c2.clone())],
                 items: items.clone(),
             });
+        }
+    }
+    // --- same id / source / protocol, different destination: datagram 0 is for us, datagram 1 for
+    // a foreign on-link unicast address or an unjoined multicast group. Same length, same source
+    // port, compatible cuts (a fragment of one tiles with fragments of the other), different salts:
+    // only the destination address in the reassembly key keeps them apart.
+    let sk_pairs: Vec<(usize, usize)> = if thorough { vec![(2, 2), (3, 2), (2, 3), (3, 3)] } else { vec![(2, 2), (3, 2)] };
+    for other in [[10u8, 0, 0, 77], [239, 1, 2, 3]] {
+        for zero in [true, false] {
+            for &(n, m) in &sk_pairs {
+                let total = 29usize;
+                let cut = |k: usize| if k == 2 { vec![(0usize, 16usize), (16, 13)] } else { vec![(0, 8), (8, 8), (16, 13)] };
+                let mut items: Vec<(u8, u8)> = (0..n).map(|i| (0u8, i as u8)).collect();
+                items.extend((0..m).map(|i| (1u8, i as u8)));
+                for raw in [false, true] {
+                    if raw && !zero {
+                        continue; // the raw variant has no UDP checksum: one family per combination
+                    }
+                    v.push(Family {
+                        class: "same-key-different-destination",
+                        raw,
+                        eth: false,
+                        label: format!(
+                            "same-key {} ip {}+{} fragments of {}B, other dst {}.{}.{}.{}, udp checksum {}",
+                            if raw { "raw" } else { "udp" },
+                            n,
+                            m,
+                            total,
+                            other[0],
+                            other[1],
+                            other[2],
+                            other[3],
+                            if raw { "n/a" } else if zero { "0 (none)" } else { "valid" }
+                        ),
+                        dgs: vec![
+                            Dg { id: 0x3300, len: total, salt: 7, cuts: cut(n), dst: OUR_IP, sport: Some(RX_SPORT_BASE), zero_cksum: zero },
+                            Dg { id: 0x3300, len: total, salt: 9, cuts: cut(m), dst: other, sport: Some(RX_SPORT_BASE), zero_cksum: zero },
+                        ],
+                        items: items.clone(),
+                    });
+                }
+            }
         }
     }
     // --- enough fragments to exceed the assembler's range limit: 2*limit+1 single-piece fragments
@@ -505,7 +630,9 @@ pub(crate) fn run_rx(rep: &mut Report, tier: Tier) {
             json!({"families": fams.iter().filter(|f| f.class == k).count(), "arrival_orders_delivered": t.arrangements, "fragments_injected": t.frames,
                 "datagram_outcomes": {"delivery_demanded_and_delivered_exact": t.demanded_delivered, "delivery_demanded_but_nothing": t.demanded_missing,
                     "not_demanded_delivered_exact": t.free_delivered, "not_demanded_nothing": t.free_nothing, "delivered_more_than_once_(legit: two complete sets)": t.delivered_twice_ok},
-                "frames_emitted_by_stack_during_cases": t.tx_frames}),
+                "frames_emitted_by_stack_during_cases": t.tx_frames,
+                "datagram_for_other_destination_delivered_whole_to_raw_socket_(lenient, see judge())": t.foreign_whole_to_raw,
+                "cases_that_panicked": t.panics}),
         );
     }
     rep.add_count("states", cases);
@@ -533,6 +660,12 @@ pub(crate) fn replay(r: &Value) -> i32 {
                     len: d["len"].as_u64()? as usize,
                     salt: d["salt"].as_u64()? as u32,
                     cuts: d["cuts"].as_array()?.iter().map(|c| (c[0].as_u64().unwrap_or(0) as usize, c[1].as_u64().unwrap_or(0) as usize)).collect(),
+                    dst: match d["dst"].as_array() {
+                        Some(a) if a.len() == 4 => [a[0].as_u64()? as u8, a[1].as_u64()? as u8, a[2].as_u64()? as u8, a[3].as_u64()? as u8],
+                        _ => OUR_IP,
+                    },
+                    sport: d["sport"].as_u64().map(|p| p as u16),
+                    zero_cksum: d["zero_cksum"].as_bool().unwrap_or(false),
                 })
             })
             .collect::<Option<Vec<_>>>()?;
@@ -543,6 +676,7 @@ pub(crate) fn replay(r: &Value) -> i32 {
             "with-duplicate" => "with-duplicate",
             "overlapping-retransmission" => "overlapping-retransmission",
             "interleaved-datagrams" => "interleaved-datagrams",
+            "same-key-different-destination" => "same-key-different-destination",
             _ => "range-limit",
         };
         Some((
@@ -559,9 +693,15 @@ pub(crate) fn replay(r: &Value) -> i32 {
         let (d, c) = fam.items[it as usize];
         let dg = &fam.dgs[d as usize];
         let (o, l) = dg.cuts[c as usize];
-        println!("  arrive: datagram {} id {:#06x} fragment offset {} len {} MF={}", d, dg.id, o, l, (o + l < dg.len) as u8);
+        println!("  arrive: datagram {} id {:#06x} dst {:?} fragment offset {} len {} MF={}", d, dg.id, dg.dst, o, l, (o + l < dg.len) as u8);
     }
-    let res = run_case(&fam, &order);
+    let res = match run_case_caught(&fam, &order) {
+        Ok(r) => r,
+        Err(v) => {
+            println!("violation: {} :: {}", v.sig, v.detail);
+            return 1;
+        }
+    };
     if let Some(m) = &res.machinery {
         eprintln!("MACHINERY ERROR: {}", m);
         return 2;
